@@ -6,33 +6,39 @@ from ..sexp import Atom
 from . import c09_host
 
 RULE = ("for every datatype of the stock registry with a written contract: all strings up to the tier's per-type length over an "
-        "alphabet holding one representative per character class the type distinguishes, single-character and 'a'+c probes "
+        "alphabet holding one representative per character class the type distinguishes (for the numeric types: a blank AND U+001C, "
+        "white space that int()/float() do not skip), single-character, 'a'+c and - numeric types - c+literal, literal+c probes "
         "over the selected Unicode code points, and random mixed strings; the real conversion, the model of the code and the "
         "documented contract are evaluated on each; non-trivial = accepted by the contract or longer than 1; distinct by "
         "(datatype, string)")
 
+# U+001C stands for the class "str.isspace() holds, int() / float() do not skip it" (the separator controls U+001C..U+001F: the
+# generated table intSpaceExcluded) in every alphabet of a datatype that parses a number, next to the blank (skipped by both)
 ALPHABETS = {
     "basic-key": "aZ1-._ é",
     "identifier": "aZ1-._ é",
     "dotted-name": "aZ1._- ",
     "dotted-suffix": "aZ1._- ",
     "boolean": None,
-    "integer": "01-+_ ١a.",
-    "port-number": "0169-+_ ",
-    "byte-size": "1kKmMgGbB-_ x",
-    "time-interval": "1smhdSD-_ w",
-    "inet-address": "aB1:[]. -",
-    "inet-binding-address": "aB1:[]. ",
-    "inet-connection-address": "aB1:[]. ",
-    "socket-address": "a1:[]./ ",
+    "integer": "01-+_ ١a.\x1c",
+    "port-number": "0169-+_ \x1c",
+    "byte-size": "1kKmMgGbB-_ x\x1c",
+    "time-interval": "1smhdSD-_ w\x1c",
+    "inet-address": "aB1:[]. -\x1c",
+    "inet-binding-address": "aB1:[]. \x1c",
+    "inet-connection-address": "aB1:[]. \x1c",
+    "socket-address": "a1:[]./ \x1c",
     "socket-binding-address": "a1:[]/",
     "socket-connection-address": "a1:[]/",
     "ipaddr-or-hostname": "aFg1.:-_ ",
     "string-list": "a b\t \x0c",
     "string": "a $",
     "null": "a $",
-    "float": "1.e-+_naif ",
+    "float": "1.e-+_naif \x1c",
 }
+# the datatypes that hand (part of) the text to int() / float()
+NUMERIC = ("integer", "port-number", "byte-size", "time-interval", "float", "inet-address", "inet-binding-address",
+           "inet-connection-address", "socket-address")
 LENGTH = {"quick": {"default": 4, "ipaddr-or-hostname": 5, "port-number": 5, "byte-size": 4},
           "thorough": {"default": 6, "ipaddr-or-hostname": 7, "port-number": 6, "integer": 6, "basic-key": 6}}
 
@@ -47,19 +53,28 @@ EXTRA = {
                            "1.2.3.4.", "1..2", "25[0-5]", "::1.2.3.4", "::1.2.3", "0:0:0:0:0:0:1.2.3.4", "1:2:3:4:5:6:7::",
                            "::2:3:4:5:6:7:8", "a_b", "a b", "", ":", ":::", "1::2::3", "00001::", "a1:", ":a1", "1.2.3.4:"],
     "inet-address": ["host:80", "[::1]:80", "::1", "[::1]", "[::1]:", ":80", "80", "65535", "65536", "-1", "host:", "Host", "a b",
-                     "[a]:1", "[]:1", "]:1", "[:1", "a:b:1", "a:1:2", "HOST:1", " 80 ", "1_0", "h:1_0", "", ":", "::", "[]"],
+                     "[a]:1", "[]:1", "]:1", "[:1", "a:b:1", "a:1:2", "HOST:1", " 80 ", "1_0", "h:1_0", "", ":", "::", "[]",
+                     "h:80\x1c", "h:\x1c80", "h: 80", "h:80\x85", "\x1c80", "80\x1f", "\x1ch:80", "[::1]:\x1d80", "h\x1c:80"],
     "byte-size": ["10", "10kb", "10KB", "10Kb", "10 kb", "10mb", "10gb", "10tb", "kb", "1kkb", "1bkb", "-5kb", "1_0mb", "10k", "b", "",
-                  "٥kb", "10kB ", " 10kb", "10\tkb", "0x10kb", "1e3kb", "1kb1kb", "İkb", "1KİB"],
-    "time-interval": ["5", "5s", "5S", "5m", "5h", "5d", "5D", "5w", "5ss", "s", "", "-5m", "5 m", "1_0h", "٥d", "5ms", "5dd"],
-    "port-number": ["0", "65535", "65536", "-0", "-1", "+80", " 80 ", "8_0", "08", "٨٠", "80.0", "", "0x50", "8 0"],
-    "integer": ["0", "-0", "+1", "1_000", "1__0", "_1", "1_", " 1 ", "\x0c1", "١٢", "1a", "", "-", "+", "- 1", "0x10", "1e3", "१२", "1.0"],
+                  "٥kb", "10kB ", " 10kb", "10\tkb", "0x10kb", "1e3kb", "1kb1kb", "İkb", "1KİB",
+                  "10\x1ckb", "\x1c10kb", "10kb\x1c", "10\x85kb", "\x1d10", "10\x1e", "1\x1f0kb"],
+    "time-interval": ["5", "5s", "5S", "5m", "5h", "5d", "5D", "5w", "5ss", "s", "", "-5m", "5 m", "1_0h", "٥d", "5ms", "5dd",
+                      "1\x1ch", "\x1c1h", "1h\x1c", "1\x85h", "\x1d5", "5\x1e", "5\x1f", " 5\x1cs", "5\u2028m"],
+    "port-number": ["0", "65535", "65536", "-0", "-1", "+80", " 80 ", "8_0", "08", "٨٠", "80.0", "", "0x50", "8 0",
+                    "\x1c80", "80\x1c", "\x1d80", "80\x1e", "\x1f80\x1f", "\x8580", "80\x85", " \x1c80", "80\x1c ", "+\x1c80", "8\x1c0"],
+    "integer": ["0", "-0", "+1", "1_000", "1__0", "_1", "1_", " 1 ", "\x0c1", "١٢", "1a", "", "-", "+", "- 1", "0x10", "1e3", "१२", "1.0",
+                # white space int() skips (all of isspace but U+001C..U+001F) and white space it does not
+                "\x1c1", "1\x1c", "\x1d1", "1\x1d", "\x1e1", "1\x1e", "\x1f1", "1\x1f", " 1\x1f", "\x1c 1", " \x1c1", "1\x1c ", "1 \x1c",
+                "\x851", "1\x85", "\x85\x1c1", "-\x1c1", "1\x1c2", "\x1c", "\x1c\x1c", "\u30001\u2028", "\xa01\u1680", "\x1c-1", "+1\x1e"],
     "dotted-name": ["a", "a.b", "a..b", ".a", "a.", "a.b.c", "_a._b", "a.1", "1.a", "a b", "a.b ", "", ".", "a\n", "é.a"],
     "dotted-suffix": ["a", ".a", ".a.b", "a.b", "..a", ".a.", ".", "", ".1", ".a b", "a.", ".a.b.c", "a\n", ".a\n"],
     "basic-key": ["a", "A", "a-b", "a.b_c", "1a", "-a", "_a", "a b", "", "a\n", "A1.-_", "é", "aé", "ſ", "K", "İ", "ı", "aİ"],
     "identifier": ["a", "_", "_1", "a1", "1a", "a-b", "a.b", "", "a\n", "é", "aé", "__x__", "a b"],
     "socket-address": ["/var/run/x", "a/b", "host:80", "::1", "[::1]:80", "80", "a b", "", "/"],
     "float": ["1", "1.5", "-2e3", "inf", "-Inf", "nan", "NaN", "infinity", "1_0", "1__0", ".5", "5.", ".", "e5", "1e", "1e+", " 1 ", "",
-              "١.٥", "0x1p3", "1e5_0", "1_e5", "1._5", "+.5e-1_0", "--1", "in f"],
+              "١.٥", "0x1p3", "1e5_0", "1_e5", "1._5", "+.5e-1_0", "--1", "in f",
+              "\x1c1", "1\x1c", "\x1d1.5", "1.5\x1d", "\x1einf", "nan\x1e", "\x1f1e3", "1e3\x1f", " 1\x1f", "\x1c 1", "\x851", "1.5\x85",
+              "1e\x1c5", "-\x1c1", "\x1c", "\u3000.5\u2028", "inf\x1c ", " \x1cnan"],
     "string-list": ["", " ", "a", "a b", "  a\tb\x0cc  ", "a b", "a b", "a\x1cb"],
 }
 
@@ -145,9 +160,18 @@ def run(ctx):
             inputs += list(util.enum_strings(alpha, L))
             # one probe per selected code point in first and in later position
             probe_cps = cps if dt in ("basic-key", "identifier", "dotted-name", "dotted-suffix", "ipaddr-or-hostname", "integer",
-                                      "port-number", "byte-size", "time-interval", "boolean") else cps[:2000]
+                                      "port-number", "byte-size", "time-interval", "boolean", "float") else cps[:2000]
             inputs += [chr(c) for c in probe_cps] + ["a" + chr(c) for c in probe_cps] + ["1" + chr(c) + "1" for c in probe_cps[:3000]]
-            pool = alpha + "0123456789abcdefXYZ:.-_[]/ kbKBmMgGsShHdD"
+            if dt in NUMERIC:
+                # before and after a literal: the positions where int() / float() skip white space - their own set of it
+                lit = {"byte-size": "1kb", "time-interval": "1h", "inet-address": "h:1", "inet-binding-address": "h:1",
+                       "inet-connection-address": "h:1", "socket-address": "h:1"}.get(dt, "1")
+                inputs += [chr(c) + lit for c in probe_cps] + [lit + chr(c) for c in probe_cps]
+                inputs += [" " + chr(c) + lit for c in probe_cps[:3000]] + [lit + chr(c) + " " for c in probe_cps[:3000]]
+                if lit != "1":      # between the number and its suffix; between the colon and the port
+                    inputs += ["1" + chr(c) + lit[1:] for c in probe_cps[:3000]] if dt in ("byte-size", "time-interval") else \
+                        ["h:" + chr(c) + "1" for c in probe_cps[:3000]]
+            pool = alpha + "0123456789abcdefXYZ:.-_[]/ kbKBmMgGsShHdD" + ("\x1c\x1d\x1e\x1f\x85\u2028" if dt in NUMERIC else "")
             inputs += ["".join(ctx.rng.choice(pool) for _ in range(ctx.rng.randint(1, 14))) for _ in range(20000 if ctx.thorough() else 1500)]
         # U+0130 and U+03A3 lower-case irregularly; they are outside the model's domain (DESIGN §3) for lower-casing types
         if dt in ("boolean", "byte-size", "time-interval", "inet-address", "inet-binding-address", "inet-connection-address",
@@ -194,9 +218,10 @@ def run(ctx):
     # datetime.timedelta then does with the numbers (NaN, infinity, > 999999999 days -> ValueError) is outside it.
     import ZConfig.datatypes as Dm
     td_inputs = EXTRA["float"] + ["4w 2d", "1.5h", "5x", "5", "s", "", "1w1d", "\u0663d", " 2m ", "1e3s", "infs", "nanw", "-1d", "1d 2d",
-                                  "1_0s", "1W", "12", "1 w", "2 1x", "1w 2w", "1d\x0c2h", "1e400d", "9999999999d"]
-    pool = "0123456789.eE+-_wdhmsWDx \tinfa"
-    td_inputs += list(util.enum_strings("1.ewdx -", 4 if not ctx.thorough() else 5))
+                                  "1_0s", "1W", "12", "1 w", "2 1x", "1w 2w", "1d\x0c2h", "1e400d", "9999999999d",
+                                  "1\x1ch", "\x1c1h", "1h\x1c", "1d\x1c2h", "1\x1fd", "1\x85h", "\x1d", "1w\x1e1d", "1\x1cx", "\x1c1"]
+    pool = "0123456789.eE+-_wdhmsWDx \tinfa\x1c\x1f\x85"
+    td_inputs += list(util.enum_strings("1.ewdx -\x1c", 4 if not ctx.thorough() else 5))
     td_inputs += ["".join(ctx.rng.choice(pool) for _ in range(ctx.rng.randint(1, 10))) for _ in range(20000 if ctx.thorough() else 2500)]
     td_ans = core.driver_batch([[Atom("timedelta"), s] for s in td_inputs]) if ctx.driver_ok else [None] * len(td_inputs)
 
